@@ -77,8 +77,7 @@ class CallMixin:
             self.safe(path, "unpack", v.n == n, node)
             return [v.at(z3.IntVal(i)) for i in range(n)]
         if isinstance(v, sv.SNone):
-            self.safe(path, "unpack", z3.BoolVal(False), node)
-            raise Unsupported("unpacking None", node)
+            self.definite_error(path, "unpack", node, "unpacking None")
         r = self.lib_unpack(v, n, path, node)
         if r is not None:
             return r
@@ -121,8 +120,7 @@ class CallMixin:
                 raise Unsupported(f"attribute {attr} on union with callable alternatives", node)
             return sv.mk_union(parts)
         if isinstance(base, sv.SNone):
-            self.safe(path, "none", z3.BoolVal(False), node)
-            raise Unsupported(f"attribute '{attr}' of None (definite AttributeError)", node)
+            self.definite_error(path, "none", node, f"attribute '{attr}' of None")
         if isinstance(base, sv.SPy):
             return self.getattr_py(base, attr, path, node)
         if isinstance(base, sv.SRef):
